@@ -69,7 +69,9 @@ func (s *ansiState) ToString() string {
 
 	ret = "\x1b[" + strings.TrimSuffix(ret, ";") + "m"
 	if s.url != nil {
-		ret = fmt.Sprintf("\x1b]8;%s;%s\x1b\\%s\x1b]8;;\x1b", s.url.params, s.url.uri, ret)
+		// The link is opened last and properly terminated, so that the string can
+		// be put in front of any text
+		ret = fmt.Sprintf("%s\x1b]8;%s;%s\x1b\\", ret, s.url.params, s.url.uri)
 	}
 	return ret
 }
